@@ -128,7 +128,15 @@ def tweak_texts(r, L, R):
         return [(n, a) for n in t.iter() for a in ("text", "tail") if getattr(n, a) and (a == "text" or n is not t) and (n.kind == "e" or a == "tail")]
 
     m = r.random()
-    if m < 0.5:
+    if m < 0.25:
+        # (c) short strings over two letters in the same slot of both documents: dense in the corner cases of the merge passes
+        k = r.randrange(1 << 30)
+        for t in (L, R):
+            sl = slots(t)
+            if sl:
+                n, a = sl[k % len(sl)]
+                setattr(n, a, "".join(r.choice("ab") for _ in range(r.randint(1, 7))))
+    elif m < 0.6:
         sl = [x for x in slots(R) if len(getattr(*x)) >= 2]
         if sl:
             n, a = r.choice(sl)
